@@ -70,7 +70,8 @@ func goid() int {
 func parkedState(s string) bool {
 	switch s {
 	case "sync.Cond.Wait", "sync.Mutex.Lock", "sync.RWMutex.Lock", "sync.RWMutex.RLock", "semacquire", "sync.WaitGroup.Wait", "chan receive", "chan send", "select", "select (no cases)",
-		"chan receive (nil chan)", "chan send (nil chan)", "chan receive (durable)", "chan send (durable)", "select (durable)", "sync.Cond.Wait (durable)", "sync.WaitGroup.Wait (durable)":
+		"chan receive (nil chan)", "chan send (nil chan)", "chan receive (durable)", "chan send (durable)", "select (durable)", "sync.Cond.Wait (durable)", "sync.WaitGroup.Wait (durable)",
+		"synctest.Wait (durable)", "synctest.Run (durable)", "synctest.Wait", "synctest.Run":
 		return true
 	}
 	return false
